@@ -70,6 +70,7 @@ class World:
         # histories with different root causes would be merged and only one cause reported)
         self.last_fit_overwrite = None
         self.overwriting_fit_after_checkpoint = False
+        self.resumed_instance = False
 
     # --- actions -------------------------------------------------------
     def do(self, act):
@@ -110,6 +111,7 @@ class World:
                 self.a = Aspire.resume_from_file(self.path, log_likelihood=self.mon.log_likelihood, log_prior=self.mon.log_prior)
                 self.stack = []
                 self.fitted = True
+                self.resumed_instance = True
             elif kind == "resume-sample":
                 torch.manual_seed(1)
                 self.a.sample_posterior(n_steps=1, adaptive=False, sampler_kwargs={"n_steps": 1}, preconditioning="none")
@@ -166,7 +168,7 @@ class World:
         primed = (hasattr(self.a, "_resume_from_default"), getattr(self.a, "_resume_sampler_type", None))
         return (o["config"], o["flow"], o["file_eq_mem"], o["ckpt"], o["ckpt_file"], o["ckpt_mem"], len(self.stack), dv,
                 primed, self.fitted, getattr(self.a, "_last_sampler_type", None), self.error[0] if self.error else None,
-                self.last_fit_overwrite, self.overwriting_fit_after_checkpoint)
+                self.last_fit_overwrite, self.overwriting_fit_after_checkpoint, self.resumed_instance)
 
 
 SAMPLER_CLASS = {"smc": "MiniPCNSMC", "minipcn_smc": "MiniPCNSMC", "emcee_smc": "EmceeSMC", "importance": "ImportanceSampler"}
@@ -204,7 +206,8 @@ def invariant(w, hist=()):
     else:
         cls = SAMPLER_CLASS.get(o["config"], o["config"])
         if cls != o["ckpt"]:
-            out.append((f"C14/config-names-other-sampler/config={o['config']},checkpoint={o['ckpt']}", o))
+            via = "after-resume_from_file" if any(tuple(a)[0] == "resume" for a in hist) else "no-resume"
+            out.append((f"C14/config-names-other-sampler/config={o['config']},checkpoint={o['ckpt']}/{via}", o))
     return out, o
 
 
